@@ -104,6 +104,20 @@ def run(ctx):
     for r in ures:
         if r.get("err"):
             raise Inconclusive("tunnel-replay: %s %s: %s" % (r["suite"], r["cipher"], r["err"]))
+        if r.get("kind") == "ivstat":
+            # FreshIV of Tunnel.tla on a run of messages under one key: pairwise distinct, and not drawn
+            # from a space so small that repetition is a matter of some ten thousand messages (FDO: a 96
+            # bit nonce for AES-GCM and AES-CTR, a whole block for AES-CBC). A byte position that is
+            # constant over 96 messages is not random (probability 256^-95); at most the 4 counter
+            # bytes of the CTR layout may be constant.
+            ctx.notes["iv_runs_checked"] = ctx.notes.get("iv_runs_checked", 0) + 1
+            if r["iv_distinct"] != r["iv_n"]:
+                ctx.violation("iv|repeated|mode=%s" % mode(r["cipher"]), "%s %s: only %d distinct IVs in %d consecutive messages" % (
+                    r["suite"], r["cipher"], r["iv_distinct"], r["iv_n"]), r)
+            elif r["iv_varying"] < 12:
+                ctx.violation("iv|low-entropy|mode=%s" % mode(r["cipher"]), "%s %s: only %d of %d IV bytes ever change over %d consecutive messages (a fresh IV needs at least a 96 bit nonce)" % (
+                    r["suite"], r["cipher"], r["iv_varying"], r["iv_len"], r["iv_n"]), r)
+            continue
         n_unit += r["n"]
         cells.add((r["suite"], r["cipher"], r["dir"], r["class"]))
         allowed = table[(r["cipher"], r["class"])]
